@@ -65,6 +65,23 @@ def shipped_modules(repo: Repo) -> list[tuple[FuncInfo, ast.Call, Module]]:
     return out
 
 
+def sendexec_parts(repo, f, call: ast.Call) -> list[ast.AST]:
+    """the source parts handed to sendexec(io, *parts), with hoisted locals and starred list displays expanded"""
+    from ..util import expand
+
+    out: list[ast.AST] = []
+    for a in call.args[1:]:
+        if isinstance(a, ast.Starred):
+            v = expand(repo, f, a.value)
+            if isinstance(v, (ast.List, ast.Tuple)):
+                out.extend(expand(repo, f, e) or e for e in v.elts)
+            else:
+                out.append(a)
+            continue
+        out.append(expand(repo, f, a) or a)
+    return out
+
+
 def check(ctx: Ctx) -> None:
     repo = ctx.repo
     gb = repo.module(GB)
@@ -146,7 +163,9 @@ def check(ctx: Ctx) -> None:
             ob.violation(gs, node, f"SocketIO uses {name!r} at run time, which the shipped prelude (gateway_base + `import socket`) does not bind", construct=f"SocketIO uses {name}")
         # the class shipped is the one defined here
         bs = repo.func("gateway_bootstrap.bootstrap_socket")
-        gsrc = [c for c in repo.calls_in(bs) if unparse(c.func) == "inspect.getsource"]
+        sx = [c for c in repo.calls_in(bs) if isinstance(c.func, ast.Name) and c.func.id == "sendexec"]
+        ob.require(len(sx) == 1, "bootstrap_socket: sendexec call not found")
+        gsrc = [a for a in sendexec_parts(repo, bs, sx[0]) if isinstance(a, ast.Call) and unparse(a.func) == "inspect.getsource"]
         ob.site(bs, bs.node, "bootstrap_socket ships getsource(gateway_base), 'import socket', getsource(SocketIO)", shipped=[norm(c) for c in gsrc])
         if [unparse(c.args[0]) for c in gsrc] != ["gateway_base", "SocketIO"]:
             ob.violation(bs, bs.node, "bootstrap_socket no longer ships exactly gateway_base and SocketIO", construct="shipped sources")
@@ -171,9 +190,10 @@ def check(ctx: Ctx) -> None:
             calls = [c for c in repo.calls_in(f) if isinstance(c.func, ast.Name) and c.func.id == "sendexec"]
             ob.require(len(calls) == 1, f"{fname}: sendexec call not found")
             nsites += 1
-            parts = fragment_source(calls[0].args[1:])
+            xargs = sendexec_parts(repo, f, calls[0])
+            parts = fragment_source(xargs)
             lits = [p for p in parts if p is not None]
-            nonlit = [norm(a) for a, p in zip(calls[0].args[1:], parts) if p is None]
+            nonlit = [norm(a) for a, p in zip(xargs, parts) if p is None]
             src = "\n".join(lits)
             try:
                 ast.parse(src)
@@ -197,9 +217,16 @@ def check(ctx: Ctx) -> None:
             ob.violation(ss, fe.node, "the socket server no longer injects `clientsock` into the namespace of the bootstrap fragment", construct="no clientsock injection")
         # sendexec ships repr(source) + newline; the remote line is exec(eval(readline()))
         se = repo.func("gateway_bootstrap.sendexec")
-        wr = [c for c in repo.calls_in(se) if callee_attr(c) == "write"]
-        ob.site(se, wr[0] if wr else None, "sendexec writes repr(source) + newline")
-        if not wr or "repr(source)" not in unparse(wr[0]) or "\\n" not in unparse(wr[0]):
+        from ..terms import const as _c, evaluator as _ev
+        va = se.node.args.vararg.arg if se.node.args.vararg is not None else None
+        line = ("bin", "Add", ("pcall", "repr", (("pcall", ("meth", _c("\n"), "join"), (("sym", va),), ()),), ()), _c("\n"))
+        good = False
+        evse = _ev(repo, se)
+        for (_p, st_) in evse.run():
+            wr = [e for e in st_.events if e.kind == "call" and e.attr == "write"]
+            good = len(wr) == 1 and len(wr[0].args) == 1 and wr[0].args[0][0] == "pcall" and wr[0].args[0][1] == ("meth", line, "encode")
+        ob.site(se, se.node, "sendexec writes repr(source) + newline", ok=good)
+        if not good:
             ob.violation(se, se.node, "sendexec no longer sends one repr()'d line")
 
     # ---- C15.e shipped modules
@@ -328,23 +355,21 @@ def check(ctx: Ctx) -> None:
     # ---- C15.f import path gate
     with ctx.obligation("C15.f", "import-path-gate") as ob:
         fb = repo.func("gateway_bootstrap.bootstrap")
-        cfg = build_cfg(repo, fb, Oracle(repo, fb, precise=True))
+        from ..terms import evaluator as _ev2
+        evb = _ev2(repo, fb)
         n_imp = 0
-        for nd in cfg.nodes:
-            if nd.ast is None or nd.id not in cfg.live():
-                continue
-            for c in calls_in_node(nd):
-                if isinstance(c.func, ast.Name) and c.func.id == "bootstrap_import":
+        sp = fb.params()[1]
+        for (pth, st) in evb.run(limit=4000):
+            for e in st.events:
+                if e.kind == "call" and e.callee == "bootstrap_import":
                     n_imp += 1
-                    f = Facts(repo, fb, {})
-                    for (t, lab) in cfg.guards(nd.id):
-                        if t.kind == "test":
-                            f.assume(t.ast, lab == "true")
-                    ok = f.get("spec.popen") is True and f.get("spec.via") is False and f.get("spec.python") is False
-                    ob.site(fb, c, "import bootstrap only for plain popen (no via, no python=)", facts=dict(f.env))
+                    known = dict((t, v) for (t, v) in st.cond[:e.ncond])
+                    facts = {k: known.get(("sym", f"{sp}.{k}")) for k in ("popen", "via", "python")}
+                    ok = facts == {"popen": True, "via": False, "python": False}
+                    ob.site(fb, e.node, "import bootstrap only for plain popen (no via, no python=)", facts=facts)
                     if not ok:
-                        ob.violation(fb, c, "bootstrap_import (which needs execnet importable remotely) is reachable for specs with python=/via= or non-popen transports")
-        ob.require(n_imp == 1, "bootstrap_import call not found in bootstrap()")
-        callers = [f.short for f, _c in repo.callsites_flat("gateway_bootstrap.bootstrap_import")]
+                        ob.violation(fb, e.node, "bootstrap_import (which needs execnet importable remotely) is reachable for specs with python=/via= or non-popen transports")
+        ob.require(n_imp >= 1, "bootstrap_import call not found in bootstrap()")
+        callers = sorted({f.short for f in repo.scan_funcs() for n in repo.own_nodes(f) if isinstance(n, ast.Name) and n.id == "bootstrap_import" and isinstance(n.ctx, ast.Load)})
         if callers != ["bootstrap"]:
             ob.violation(fb, fb.node, f"bootstrap_import has other callers: {callers}", construct=f"callers {callers}")
